@@ -291,7 +291,19 @@ class C10(Prop):
                     if g["type"] != w["type"]:
                         r.v("wait_returned_wrong_type", got=g["type"], want=w["type"])
                     if w["req"] and g["key"] != (w.get("rkey") or inp["key"]):
-                        r.v("wait_returned_event_violating_requirement", resumed=resumed, life=e["seg"], req_wait_pending_at_snapshot=rp)
+                        # the known rehydration race needs the re-delivered input to be DELAYED: every worker of the waiting step busy
+                        # with other inputs (or the resume instant itself) when the wrong event arrived
+                        sv = sent_by_uid.get(g["uid"])
+                        ts = sv["t"] if sv else None
+                        busy_others = 0
+                        if ts is not None:
+                            busy_others = sum(
+                                1 for e2 in log["entries"]
+                                if e2["seg"] == 1 and e2["idx"] != i and e2["t_in"] <= ts + 1e-9 and (e2["t_out"] is None or e2["t_out"] >= ts - 1e-9)
+                            )
+                        delayed = ts is None or busy_others >= case["workers"] or (snap_t is not None and abs(ts - snap_t) < 1e-9)
+                        r.v("wait_returned_event_violating_requirement", resumed=resumed, life=e["seg"], req_wait_pending_at_snapshot=rp,
+                            replay_delayed_by_busy_workers=bool(delayed) if resumed else False)
                 w0 = [x["t"] for e, x in recs if e["seg"] == 0 and x["res"] == "waiting"]
                 if w0:
                     reg0[f"w-{i}-{j}"] = w0[0]
